@@ -1,16 +1,32 @@
 from pyvc.contracts import contract
+from .function_logger import log_types, wf_at
 
 GPT = "pybads.bads.gaussian_process_train"
 
 
 @contract(GPT + ".local_gp_fitting", serves=["C14", "C15", "C16"])
 def _(c):
-    """ASSUMED contract (T4: the body is dominated by gpyreg internals): only the clause below is used by callers;
-    it is checked on real runs by the bounded panel (C14 monitor)."""
-    c.trust("gpyreg-dependent body; only the poll-scale clause is assumed; bounded-checked by replay/panel.py")
+    """C16: a failing hyper-parameter refit is absorbed by _robust_gp_fit_, a failing posterior update (gp.update) is caught and
+    the previous priors / hyper-parameters restored; no exception class leaves the function.
+    C14 uses one ASSUMED clause (poll scale entries are non-zero: exp of length scales divided by their geometric mean,
+    clipped below by the positive search mesh size) - checked on real runs by the bounded panel only."""
+    c.ints("ghost.fault_budget", "function_logger.D")
     c.arr("gp.temporary_data['poll_scale']", 1, ["function_logger.D"])
+    c.req("fewer_than_ten_failures_in_a_row", "ghost.fault_budget >= 0 and ghost.fault_budget < 10", props=["C16"])
+    log_types(c, "function_logger")
+    c.arr("gp.s2", 2, [None, 1], nonnull=False)
+    c.req("logger_wf", wf_at("function_logger") + " and function_logger.X_max_idx >= 0", props=["C16"])
+    c.req("train_sizes", "options['n_train_min'] >= 1 and options['n_train_max'] >= 1 and options['buffer_ntrain'] >= 0", props=["C16"])
+    c.ints("options['n_train_max']", "options['n_train_min']", "options['buffer_ntrain']")
+    c.req("no_noise_vector_without_noise", "implies(not truthy(function_logger.noise_flag), isnone(gp.s2))", props=["C16"])
     c.mod_prefix("gp")
-    c.ens("poll_scale_nonzero", "forall(function_logger.D, lambda j: gp.temporary_data['poll_scale'][j] != 0)", props=["C14"])
+    c.mod("ghost.fault_budget", "ghost.dist", "options['gp_mean_range_fun']", "optim_state['ntrain']", "optim_state['second_fit']",
+          "iteration_history['init_N']", "iteration_history['ntrain']")
+    c.check_raises = True
+    c.raise_props = ("C16",)
+    c.ens_assumed("poll_scale_nonzero", "forall(function_logger.D, lambda j: gp.temporary_data['poll_scale'][j] != 0)",
+                  "numerics of gpyreg hyper-parameters (exp > 0, clipped below by search_mesh_size > 0); bounded-checked by replay/panel.py (C14 monitor)", props=["C14"])
+    c.ens("refit_failures_absorbed", "ghost.fault_budget >= 0 and ghost.fault_budget <= old(ghost.fault_budget)", top=True, props=["C16"])
     c.result = {"tuple": [{"param": "gp"}, {"sort": "real"}]}
 
 
@@ -41,7 +57,6 @@ def _(c):
 # ---------------------------------------------------------------------------------------------------------------------
 # C15: the GP training set is made of logged evaluations, nearest first, with supplied noise as a variance
 # ---------------------------------------------------------------------------------------------------------------------
-from .function_logger import log_types, wf_at  # noqa: E402
 
 GN = GPT + ".get_grid_search_neighbors"
 LOGGED = ("exists(rows(function_logger.X), lambda i: i <= function_logger.X_max_idx and pteq(row(result[0], k), row(function_logger.X, i)) and "
@@ -53,9 +68,9 @@ def _(c):
     log_types(c, "function_logger")
     c.ints("options['n_train_max']", "options['n_train_min']", "options['buffer_ntrain']")
     c.reals("options['gp_radius']", "gp.temporary_data['effective_radius']")
-    c.req("logger_wf", wf_at("function_logger"), props=["C15"])
-    c.req("some_point_logged", "function_logger.X_max_idx >= 0", props=["C15"])
-    c.req("train_sizes", "options['n_train_min'] >= 1 and options['n_train_max'] >= 1 and options['buffer_ntrain'] >= 0", props=["C15"])
+    c.req("logger_wf", wf_at("function_logger"), props=["C15", "C16"])
+    c.req("some_point_logged", "function_logger.X_max_idx >= 0", props=["C15", "C16"])
+    c.req("train_sizes", "options['n_train_min'] >= 1 and options['n_train_max'] >= 1 and options['buffer_ntrain'] >= 0", props=["C15", "C16"])
     c.mod("optim_state['ntrain']")
     # the metric itself (udist: periodic wrap, length scales) is outside the clauses: its value vector is named by a ghost
     c.opaque_stmt("dist = udist(")
@@ -65,10 +80,10 @@ def _(c):
     c.mod("ghost.dist")
     c.let(n="function_logger.X_max_idx + 1", nmax="options['n_train_max']", nmin="options['n_train_min']", buf="options['buffer_ntrain']",
           r2="(options['gp_radius'] * gp.temporary_data['effective_radius']) * (options['gp_radius'] * gp.temporary_data['effective_radius'])")
-    c.result = None
+    c.result = {"tuple": [{"arrspec": (2, [None, "function_logger.D"], "num", False)}, {"arrspec": (2, [None, 1], "num", False)}, {"arrspec": (2, [None, 1], "num", False), "maybe_none": True}]}
     c.ens("training_pairs_are_logged_evaluations", "forall(rows(result[0]), lambda k: " + LOGGED + ")", top=True, props=["C15"])
     c.ens("one_value_per_input", "rows(result[1]) == rows(result[0]) and implies(truthy(function_logger.noise_flag), rows(result[2]) == rows(result[0])) and "
-          "implies(not truthy(function_logger.noise_flag), isnone(result[2]))", top=True, props=["C15"])
+          "implies(not truthy(function_logger.noise_flag), isnone(result[2])) and implies(truthy(function_logger.noise_flag), not isnone(result[2]))", top=True, props=["C15", "C16"])
     c.ens("ordered_by_distance", "forall(rows(result[0]), rows(result[0]), lambda a, b: implies(a < b, ghost.dist[sort_idx[a]] <= ghost.dist[sort_idx[b]])) and "
           "forall(rows(result[0]), lambda k: pteq(row(result[0], k), row(function_logger.X, sort_idx[k])))", top=True, props=["C15"])
     c.ens("nearest_points_selected", "forall(n, lambda i: implies(argsort_rank(sort_idx, i) >= rows(result[0]), "
@@ -88,3 +103,52 @@ def _(c):
           top=True, props=["C15"])
     c.ens("all_logged_points_used", "rows(result[0]) == count_true(function_logger.X_flag) and rows(result[1]) == rows(result[0])", top=True, props=["C15"])
     c.ens("no_noise_no_variance", "implies(not truthy(function_logger.noise_flag), isnone(result[2]))", props=["C15"])
+
+
+# ---------------------------------------------------------------------------------------------------------------------
+# C16: a failing hyper-parameter fit is retried / falls back; the retry loop always hands gpyreg a consistent training set
+# ---------------------------------------------------------------------------------------------------------------------
+@contract(GPT + "._robust_gp_fit_", serves=["C16"])
+def _(c):
+    c.ints("ghost.fault_budget", "options['remove_points_after_tries']")
+    c.arr("x_train", 2, [None, None])
+    c.arr("y_train", 2, [None, 1])
+    c.arr("s2_train", 2, [None, 1], nonnull=False)
+    c.arr("X", 2, [None, None])
+    c.arr("Y", 2, [None, 1])
+    c.arr("s2", 2, [None, 1], nonnull=False)
+    c.req("fewer_than_ten_failures_in_a_row", "ghost.fault_budget >= 0 and ghost.fault_budget < 10", props=["C16"])
+    c.req("training_set_consistent", "rows(y_train) == rows(x_train) and implies(not isnone(s2_train), rows(s2_train) == rows(x_train))", props=["C16"])
+    c.mod_prefix("gp")
+    c.mod("ghost.fault_budget")
+    c.check_raises = True
+    c.raise_props = ("C16",)  # no exception class may leave the function (LinAlgError from GP.fit is caught on every path)
+    c.unbound_checks = True  # reading a local that is unbound on the path raises UnboundLocalError (res after ten failures)
+    c.loop(0, invariants={
+        "c16_every_pass_consumed_a_failure": "ghost.fault_budget == old(ghost.fault_budget) - i_try and ghost.fault_budget >= 0",
+        "c16_training_set_stays_consistent": "rows(Y) == rows(X) and implies(not isnone(s2), rows(s2) == rows(X))",
+    }, props=["C16"])
+    c.ens("returns_normally_with_a_fit_result", "ghost.fault_budget >= 0 and ghost.fault_budget <= old(ghost.fault_budget)", top=True, props=["C16"])
+
+
+@contract(GPT + ".init_and_train_gp", serves=["C16"])
+def _(c):
+    """Initial training: the retry loop ends (each failure consumes the fault budget, a success leaves the loop) and no
+    exception class leaves it.  Everything before / after the loop is gpyreg set-up code (T4: non-raising externals)."""
+    c.ints("ghost.fault_budget")
+    c.req("finitely_many_failures", "ghost.fault_budget >= 0", props=["C16"])
+    c.mod("ghost.fault_budget")
+    c.mod_prefix("hyp_dict")
+    c.mod("iteration_history['init_N']", "iteration_history['ntrain']")
+    c.opaque_stmt("hyp0 = np.empty(", "hyp0 = np.concatenate(", "hyp0 = hyp0[", "hyp0 = np.unique(")  # starting points of the optimiser: values irrelevant here
+    c.bools("fitted")
+    c.ints("training_failures")
+    c.check_raises = True
+    c.raise_props = ("C16",)
+    # ValueError is raised by the set-up code for unknown mean / covariance names, before any fit (the budget is untouched);
+    # a LinAlgError (a ValueError subclass) escaping from a fit would have consumed one unit
+    c.may_raise("ValueError", when="True", ensures={"raised_before_any_fit": "ghost.fault_budget == old(ghost.fault_budget)"})
+    c.loop(1, invariants={
+        "c16_budget_nonnegative": "ghost.fault_budget >= 0 and training_failures >= 0",
+    }, variant=["ite(fitted, 0, 1)", "ghost.fault_budget"], props=["C16"])
+    c.ens("initial_training_completes", "ghost.fault_budget >= 0", top=True, props=["C16"])
